@@ -96,6 +96,12 @@ func sameResult(r, tr *Result) (bool, string) {
 	if (r.Err == "") != (tr.Err == "") {
 		return false, fmt.Sprintf("err=%q, sequentially err=%q", clip(r.Err), clip(tr.Err))
 	}
+	// "returns exactly what the same call returns": the kind of error too
+	// (analysis / run-time / other, and the analysis error code); texts are
+	// not compared, they may embed map-ordered listings.
+	if r.ErrClass != tr.ErrClass || r.ErrCode != tr.ErrCode {
+		return false, fmt.Sprintf("error %q (%s/%d), sequentially %q (%s/%d)", clip(r.Err), r.ErrClass, r.ErrCode, clip(tr.Err), tr.ErrClass, tr.ErrCode)
+	}
 	if !bytes.Equal(r.Out, tr.Out) {
 		return false, fmt.Sprintf("wrote %q, sequentially %q", clip(string(r.Out)), clip(string(tr.Out)))
 	}
